@@ -6,6 +6,7 @@ CONSTANTS
   MaxLen = 12
   MaxResets = 2
   KeepHist = FALSE
+  WithSnap = TRUE
 CONSTRAINT Bound
 INVARIANT TypeOK
 INVARIANT StepsCountCalls
@@ -14,4 +15,5 @@ INVARIANT LoopBounded
 INVARIANT LoopExitsStopped
 PROPERTY StaysStopped
 PROPERTY ResetRestoresInitial
+PROPERTY RestoreRestoresSaved
 CHECK_DEADLOCK FALSE
